@@ -551,16 +551,29 @@ Qed.
 
 (* every successfully decoded value has at most ANY_MAX_DEPTH + 1 = 257 levels, and (decode_any_fuel)
    fuel [length bs + 1] is always enough: the recursion of the decoder is bounded on every input *)
+Lemma any_max_depth_succ : ANY_MAX_DEPTH + 1 = 257.
+Proof. reflexivity. Qed.
+
 Theorem decode_any_depth_bound : forall fuel bs a rest,
-  decode_any fuel bs = Ok a rest -> any_depth a <= 257.
-Proof.
-  intros fuel bs a rest H. apply decode_any_at_depth in H. unfold ANY_MAX_DEPTH in H. lia.
-Qed.
+  decode_any fuel bs = Ok a rest -> any_depth a <= ANY_MAX_DEPTH + 1.
+Proof. intros fuel bs a rest H. apply decode_any_at_depth in H. lia. Qed.
 Print Assumptions decode_any_depth_bound.
+
+(* with the generated value of the constant *)
+Corollary decode_any_depth_bound_257 : forall fuel bs a rest,
+  decode_any fuel bs = Ok a rest -> any_depth a <= 257.
+Proof. intros fuel bs a rest H. apply decode_any_depth_bound in H. rewrite any_max_depth_succ in H. exact H. Qed.
+
+(* both halves together: the recursion of the decoder is bounded on every input *)
+Theorem decode_any_bounded : forall bs,
+  decode_any (S (length bs)) bs <> Fuel /\
+  forall fuel a rest, decode_any fuel bs = Ok a rest -> any_depth a <= ANY_MAX_DEPTH + 1.
+Proof. intro bs. split; [apply decode_any_fuel|]. intros fuel a rest. apply decode_any_depth_bound. Qed.
+Print Assumptions decode_any_bounded.
 
 (* hence a value with more levels is never the result of a decode: it cannot round trip *)
 Corollary any_too_deep_no_roundtrip : forall a fuel bs rest,
-  257 < any_depth a -> decode_any fuel bs <> Ok a rest.
+  ANY_MAX_DEPTH + 1 < any_depth a -> decode_any fuel bs <> Ok a rest.
 Proof. intros a fuel bs rest Hd H. apply decode_any_depth_bound in H. lia. Qed.
 
 (* ------------------------------------------------------------------------------------------------ *)
@@ -710,7 +723,7 @@ Theorem any_roundtrip : forall a fuel bs rest,
 Proof.
   intros a fuel bs rest Hflat Hwf Henc. apply any_roundtrip_full; try assumption.
   - destruct a; try discriminate Hflat; cbn [any_fuel]; lia.
-  - destruct a; try discriminate Hflat; cbn [any_depth]; unfold ANY_MAX_DEPTH; lia.
+  - destruct a; try discriminate Hflat; cbn [any_depth]; rewrite any_max_depth_succ; lia.
 Qed.
 Print Assumptions any_roundtrip.
 
@@ -748,7 +761,7 @@ Example any_roundtrip_example :
   let a := AMap [([104; 195; 169], AArray [AInt (-5)%Z; AString [240; 159; 152; 128]; ABuffer [255; 0]])] in
   wf_any_top a = true /\
   exists bs, encode_any a = Some bs /\ decode_any (S (length bs)) bs = Ok a [].
-Proof. split; [vm_compute; reflexivity|]. eexists. split; vm_compute; reflexivity. Qed.
+Proof. split; [vm_compute; reflexivity|]. eexists. split; [vm_compute; reflexivity|]. vm_compute. reflexivity. Qed.
 
 Example any_depth_limit_example :
   any_depth (nest 256 ANull) = 257 /\
@@ -756,6 +769,8 @@ Example any_depth_limit_example :
   any_depth (nest 257 ANull) = 258 /\
   (exists bs, encode_any (nest 257 ANull) = Some bs /\ decode_any (S (length bs)) bs = Err UnexpectedValue).
 Proof.
-  split; [vm_compute; reflexivity|]. split; [eexists; split; vm_compute; reflexivity|].
-  split; [vm_compute; reflexivity|]. eexists; split; vm_compute; reflexivity.
+  split; [vm_compute; reflexivity|].
+  split; [eexists; split; [vm_compute; reflexivity|]; vm_compute; reflexivity|].
+  split; [vm_compute; reflexivity|].
+  eexists; split; [vm_compute; reflexivity|]; vm_compute; reflexivity.
 Qed.
